@@ -1616,7 +1616,7 @@ def run(tier):
                 'polynomials (derived by sarpy), every listed optional part removed alone and random subsets of them; every applicable mutation of the catalogue on the products; two residue sweeps (64 consecutive '
                 'lengths of CollectorName, with / without support arrays: every pad 0..63 after the XML block; the sweep with support arrays also has pad 0 in '
                 'front of the PVP and SIGNAL blocks); header patches at the boundary of each block-order rule; CPHD XML documents (4 templates of tests/data) '
-                'with 0-3 edits drawn from 15 rule-directed edit kinds; distinct = op-shape classes + product classes + (mutation, product class) pairs + '
+                'with 0-3 edits drawn from 16 rule-directed edit kinds; distinct = op-shape classes + product classes + (mutation, product class) pairs + '
                 '(sweep, pads) + (boundary rule, support) + (template, edit kinds)',
         'catalogue_size': len(catalogue), 'catalogue': {m['name']: {'rule': m['rule'], 'lean': m.get('lean')} for m in CPHD_MUTATIONS + NITF_MUTATIONS},
         'mutation_outcomes': mut_stats, 'samples': samples + [j for j in [cphd_model_line(b'')] if j],
